@@ -149,7 +149,10 @@ def getattr_(ex, o, name):
         ho = ex.obj(o)
         if isinstance(ho, Obj):
             if name in ho.fields:
-                return ex.wrap(ho.fields[name], o)
+                v_ = ho.fields[name]
+                if type(v_).__name__ == 'LazyVal':
+                    v_ = ex.force(v_)
+                return ex.wrap(v_, o)
             if ho.model is not None and name in ho.model.methods:
                 m_ = ho.model.methods[name]
                 from . import contracts as _C
@@ -713,8 +716,11 @@ def int_from_bytes(ex, b, byteorder='big', *, signed=False):
     if isinstance(b, bytes):
         return int.from_bytes(b, byteorder, signed=signed)
     n = conc_int(z3.Length(b.t))
-    if n is None:
-        n = ex.cfg.concretize_length(ex, b)
+    if n is None and not ex.quant:
+        for k in range(0, 9):
+            if ex.proves(z3.Length(b.t) == k):
+                n = k
+                break
     if n is None:
         raise Unsupported('int.from_bytes of a string of symbolic length')
     total = z3.IntVal(0)
